@@ -305,6 +305,9 @@ func report(L *Loaded, id, tier string, seed int, ps *PropSpec, results []*harne
 	nativeReplays, nativeReproduced := 0, 0
 	knownPrinted := map[string]bool{}
 	replayDir := filepath.Join(L.verifDir, "replays", id)
+	if d := os.Getenv("SYMGO_SCRATCH_OUT"); d != "" {
+		replayDir = filepath.Join(d, "replays", id)
+	}
 	sitesTotal, sitesVacuous := 0, 0
 
 	for _, r := range results {
@@ -498,8 +501,8 @@ func report(L *Loaded, id, tier string, seed int, ps *PropSpec, results []*harne
 			"ssa_load_s":                    round3(L.loadTime.Seconds()),
 		},
 	}
-	os.MkdirAll(filepath.Join(L.verifDir, "evidence"), 0o755)
-	writeJSON(filepath.Join(L.verifDir, "evidence", id+".json"), ev)
+	os.MkdirAll(evidenceDir(L.verifDir), 0o755)
+	writeJSON(filepath.Join(evidenceDir(L.verifDir), id+".json"), ev)
 	fmt.Printf("RESULT property=%s tier=%s paths=%d queries=%d unsat=%d violations=%d known=%d inconclusive=%d exit=%d wall=%.1fs\n",
 		id, tier, totalPaths, totalQ, totalUnsat, newViolations, knownHits, len(inconcl), exit, wall.Seconds())
 	return exit
@@ -511,8 +514,8 @@ func writeEvidenceFailure(verifDir, id, tier string, seed int, msg string, wall 
 		"assumptions": []string{"run was inconclusive: " + msg},
 		"coverage":    map[string]any{"evaluations": 1, "distinct_nontrivial": 0, "explanation": "inconclusive: " + msg, "inconclusive": []string{msg}},
 	}
-	os.MkdirAll(filepath.Join(verifDir, "evidence"), 0o755)
-	writeJSON(filepath.Join(verifDir, "evidence", id+".json"), ev)
+	os.MkdirAll(evidenceDir(verifDir), 0o755)
+	writeJSON(filepath.Join(evidenceDir(verifDir), id+".json"), ev)
 }
 
 func trunc(s string, n int) string {
@@ -586,4 +589,14 @@ func replayMain(repo, verifDir, file string, verbose, trace bool) int {
 		return 1
 	}
 	return 0
+}
+
+// evidenceDir: /verif/evidence, unless SYMGO_SCRATCH_OUT names another
+// directory (used when the checks are pointed at a scratch copy of the
+// repository to try a seeded change: such runs must not touch the evidence).
+func evidenceDir(verifDir string) string {
+	if d := os.Getenv("SYMGO_SCRATCH_OUT"); d != "" {
+		return filepath.Join(d, "evidence")
+	}
+	return filepath.Join(verifDir, "evidence")
 }
